@@ -1348,14 +1348,30 @@ def confirm_timeouts(fname, jobs, results, timeout, module=None, narrow=None):
 THEOREMS = ['Props.C05.' + t for t in ['binding_is_modelled', 'column_boundaries_correct', 'row_slicing_correct', 'field_value_printed', 'blank_field_is_zero',
                                     'field_beyond_row_is_zero', 'line_terminator_ignored', 'row_format_decidable', 'icolumn_negative_first_real_witness',
                                     'rows_keyed_by_printed_index', 'rows_in_index_order', 'skip_lands_where_read_lands', 'autough2_row_split_correct',
-                                    'autough2_adjacent_numbers_merge', 'addressing_agrees', 'reversed_key_row']]
-LEVEL_TEXT = ('Proof: 16 Lean theorems about the row layer of the reader and listingtable: parse_table_line infers exactly the field starts from a line of '
+                                    'autough2_adjacent_numbers_merge', 'addressing_agrees', 'reversed_key_row',
+                                    'data_line_meaning', 'table_read_TOUGH2', 'cells_equal_printed_table_TOUGH2',
+                                    'skip_table_lands_where_read_lands_TOUGH2', 'table_read_AUTOUGH2',
+                                    'skip_table_lands_where_read_lands_AUTOUGH2', 'tables_read_block_TOUGH2']]
+LEVEL_TEXT = ('Proof: Lean theorems about the row layer of the reader and listingtable, and their composition over the table-reading loop of the whole-file model: parse_table_line infers exactly the field starts from a line of '
               'right-aligned number fields (column_boundaries_correct; its side conditions are decided on the longest line of every table by a '
               'procedure proved sound, row_format_decidable); read_table_line_TOUGH2 never raises, cell k is fortran_float of columns [b_k,b_k+1) and '
               'blank / missing trailing cells are 0.0 (row_slicing_correct + field lemmas re-using C16); the AUTOUGH2 whitespace split returns exactly '
               'the printed numbers and merges numbers printed without a blank; rows are kept one per printed index in index order; row-index, '
-              'row-name and column-name addressing agree and a reversed connection name gives the negated row. No sorry. Partial: the composition '
-              'for whole files (cells_equal_printed) and skip-table independence beyond the file position (skip_lands_where_read_lands) are not proved; '
+              'row-name and column-name addressing agree and a reversed connection name gives the negated row. '
+              'Whole table, TOUGH2 family (read_table_TOUGH2, bound for TOUGH2/TOUGH2_MP/TOUGH3/TOUGHREACT/TOUGH+): for arbitrary lines forming a table region that is well formed for the layout recorded at set-up '
+              '(decidable predicate TableRegionT: header_skiplines header lines, then per entry of skiplines one data line plus that many skipped lines, every data line keyed by a row of the table and read without error), '
+              'the model of read_table_TOUGH2 returns, leaves the file exactly behind the region, stores under the row named by each data line the values of the row reader on that line (a later line naming the same row wins, as coded), '
+              'leaves unnamed rows, other tables and all other reader state unchanged (table_read_TOUGH2; data_line_meaning spells out the per-line predicate); '
+              'each such cell is fortran_float of the column slice of its line (cells_equal_printed_table_TOUGH2); skip_table_TOUGH2 on the same region ends at the same position as reading it when no row is printed twice (skip_table_lands_where_read_lands_TOUGH2). '
+              'Whole table, AUTOUGH2 (read_table_AUTOUGH2, a loop that runs to the terminator): for arbitrary lines forming a well-formed region (decidable predicate TableRegionA: title block, blank line, header block, blank lines, data lines none of which carries the keyword in columns 1..5 and each splitting into one value per column, the keyword line), '
+              'the model returns, the loop stops at the terminator and one more line is read behind it, row j holds exactly the values read_table_line_AUTOUGH2 returns for the j-th data line, later rows, other tables and all other reader state are unchanged (table_read_AUTOUGH2); '
+              'skip_table_AUTOUGH2 ends at the same position when no header line carries the keyword (skip_table_lands_where_read_lands_AUTOUGH2). '
+              'All tables of one result block, TOUGH2 family (tables_read_block_TOUGH2): the walk next_table_TOUGH2 (to the KCYC..ITER line, over blank lines, to the next header, table named by its first three words, stop at the end of file or at a KCYC line of the next result block) is proved on lines, '
+              'and the loop of read_tables_TOUGH2 over a well-formed block (decidable conditions EntryOk / LinksOk / EndOk; a table the reader holds no table for - in skip_tables or absent at the first time - is skipped to its @@@@@ line) returns, leaves the file behind the block, '
+              'every table read holds under the row named by each of its own data lines the row-reader values of that line whatever tables were read or skipped before it, and every table not read keeps its contents (the skip-independence clause, for one block). '
+              'No sorry. Partial: the block theorem starts behind read_header (read_tables_TOUGH2 = read_header; loop is shown, read_header itself is not characterised), excludes a MASS FLOW RATES diffusion block between tables and TOUGH+ (next_table_TOUGHplus, element-table counting), and the AUTOUGH2 block loop is not done; '
+              'not proved are that setup_table_TOUGH2 / setup_table_AUTOUGH2 record a layout for which the printed region is well formed (the link from set-up to TableRegionT / TableRegionA), the composition over all result blocks of a whole file (cells_equal_printed), '
+              'and skip-table independence beyond the file position; '
               'the per-simulator method binding is regenerated from the source on every run and the model dispatches through it (binding_is_modelled); the rest is covered by the executable whole-file Lean model of '
               't2listing (all six simulators) compared with the real reader cell for cell (bit-equal doubles) on all 37 shipped files at every result '
               'time and on value-perturbed copies, and by an independent tokenizer oracle on the printed rows.')
